@@ -71,8 +71,9 @@ def pair_case(draw):
     if draw(st.integers(0, 2)) == 0:
         rb = ra
     pts = draw(st.lists(st.tuples(st.integers(-2, 30), st.integers(-2, 30)), min_size=1, max_size=3))
+    move = [draw(st.integers(-6, 6)), draw(st.integers(-6, 6)), draw(st.sampled_from([0, 0, 2, 4]))] if draw(st.booleans()) else None
     return dict(unit=unit, a=a, b=b, ra=ra, rb=rb, fa=draw(st.booleans()), ha=draw(st.booleans()),
-                fb=draw(st.booleans()), hb=draw(st.booleans()), pts=[list(p) for p in pts])
+                fb=draw(st.booleans()), hb=draw(st.booleans()), pts=[list(p) for p in pts], move=move)
 
 
 def run_pair(c):
@@ -173,6 +174,39 @@ def run_pair(c):
     # equality: same centre, shape and region
     if (a == b) != (ea == eb and a.region == b.region):
         raise Violation("__eq__: a=%s/%s b=%s/%s gives %r" % (ea, a.region, eb, b.region, a == b), "eq")
+    # the same objects after being moved / resized IN PLACE (r.center.x += d, r.shape.w = w: FRAME itself moves rectangles
+    # this way in recenter_rectangles and when mirroring): every answer must follow the new geometry
+    mv = c.get("move")
+    if mv:
+        a.center.x += float(Fr(mv[0]) * unit)
+        a.center.y += float(Fr(mv[1]) * unit)
+        if mv[2]:
+            b.shape.w = b.shape.w + float(Fr(mv[2]) * unit)
+        ea2, eb2 = frx(a), frx(b)
+        exp_a = (ea[0] + mv[0] * unit, ea[1] + mv[1] * unit, ea[2] + mv[0] * unit, ea[3] + mv[1] * unit)
+        exp_b = (eb[0] - Fr(mv[2]) * unit / 2, eb[1], eb[2] + Fr(mv[2]) * unit / 2, eb[3])
+        bb2 = a.bounding_box
+        if ea2 != exp_a or eb2 != exp_b or (Fr(bb2.ll.x), Fr(bb2.ll.y), Fr(bb2.ur.x), Fr(bb2.ur.y)) != exp_a:
+            raise Violation("after moving a rectangle in place by %s its geometry is %s / bounding box %s, expected %s" % (mv, ea2, bb2, exp_a),
+                            "inplace-geometry")
+        common2 = X.inter_area(exp_a, exp_b)
+        if Fr(a.area_overlap(b)) != common2 or Fr(b.area_overlap(a)) != common2:
+            raise Violation("after an in-place move (%s): area_overlap = %r, common area of %s and %s is %s" % (
+                mv, a.area_overlap(b), exp_a, exp_b, common2), "inplace-area_overlap")
+        i2 = a * b
+        if (i2 is not None) != (common2 > 0 and a.region == b.region) or (i2 is not None and frx(i2) != X.inter(exp_a, exp_b)):
+            raise Violation("after an in-place move (%s): a * b = %r, common region %s" % (mv, i2, X.inter(exp_a, exp_b)), "inplace-mul")
+        if a.is_inside(b) != X.inside(exp_a, exp_b) or b.is_inside(a) != X.inside(exp_b, exp_a):
+            raise Violation("after an in-place move (%s): is_inside wrong for %s, %s" % (mv, exp_a, exp_b), "inplace-is_inside")
+        for px, py in c["pts"]:
+            p = (Fr(px) * unit / 2, Fr(py) * unit / 2)
+            if a.point_inside(Point(float(p[0]), float(p[1]))) != (exp_a[0] <= p[0] <= exp_a[2] and exp_a[1] <= p[1] <= exp_a[3]):
+                raise Violation("after an in-place move (%s): point_inside(%s) wrong for %s" % (mv, p, exp_a), "inplace-point_inside")
+        gx2 = max(exp_a[0], exp_b[0]) - min(exp_a[2], exp_b[2])
+        gy2 = max(exp_a[1], exp_b[1]) - min(exp_a[3], exp_b[3])
+        if a.touches(b) != (gx2 <= 0 and gy2 <= 0):
+            raise Violation("after an in-place move (%s): touches wrong for %s, %s" % (mv, exp_a, exp_b), "inplace-touches")
+        cls.append("moved-in-place")
     if common > 0:
         cls.append("crossing" if not (X.inside(ea, eb) or X.inside(eb, ea)) else "nested")
     if c["ra"] != c["rb"]:
@@ -304,13 +338,26 @@ def run_split(c):
         cls.append("cut-inside" if strictly else "cut-outside")
     if frx(r) != er:
         raise Violation("an operation modified the rectangle", "operand-mutated")
+    # the rectangle is moved in place and split again
+    r.center.x += float(unit) * 3
+    r.shape.h = r.shape.h + float(unit) * 2
+    er2 = (er[0] + 3 * unit, er[1] - unit, er[2] + 3 * unit, er[3] + unit)
+    if frx(r) != er2:
+        raise Violation("in-place move/resize not reflected: %s, expected %s" % (frx(r), er2), "inplace-geometry")
+    pieces = call("split_horizontal (after an in-place move)", r.split_horizontal)
+    _check_tiling("split_horizontal-after-move", pieces, er2, r)
+    g2 = call("rectangle_grid (after an in-place move)", r.rectangle_grid, 2, 2)
+    _check_tiling("rectangle_grid-after-move", g2, er2, r)
+    mid = float((er2[0] + er2[2]) / 2)
+    if not r.x_cuttable(mid) or r.x_cuttable(float(er[0]) - float(unit)):
+        raise Violation("x_cuttable after an in-place move of %s to %s is wrong" % (er, er2), "inplace-cuttable")
     return dict(nt=True, cls=cls)
 
 
 def subchecks():
     return [
         Sub("pairs", run_pair, strategy=pair_case(), n_quick=40000, n_thorough=800000,
-            required=("contact", "crossing", "nested", "regions-differ", "thin-overlap")),
+            required=("contact", "crossing", "nested", "regions-differ", "thin-overlap", "moved-in-place")),
         Sub("splits", run_split, strategy=split_case(), n_quick=30000, n_thorough=600000,
             required=("square", "oblong", "grid-pow2", "grid-inexact", "cut-inside", "cut-outside")),
     ]
